@@ -14,7 +14,7 @@ vars == <<live, pend, l, subj, kf>>
 TraceInit == AllocInit /\ l = 1 /\ subj = [subject |-> "none"] /\ kf = {}
 
 Step(e) ==
-    \/ e.op = "alloc" /\ e.ok  /\ AllocOk(e.b, e.req, e.len, e.align, e.mis, e.lo, e.hi, e.reg, e.cap)
+    \/ e.op = "alloc" /\ e.ok  /\ AllocOk(e.b, e.req, e.len, e.align, e.mis, e.lo, e.hi, e.reg, e.cap, e.span)
     \/ e.op = "alloc" /\ ~e.ok /\ AllocErr
     \/ e.op = "alloc_refused" /\ e.served = 0 /\ AllocErr
     \/ e.op = "free"    /\ Free(e.b, e.ok)
